@@ -529,11 +529,104 @@ def run(c):
         want = "err large" if ln_ > MAXLEN - OVERHEAD else "err size4" if (pr == 0 and ln_ % 4) else "ok"
         if a != want:
             c.oracle_fail(l, "body length %d (protocol %d): writer says %s" % (ln_, pr, a), l)
+    # ---- phase D: the real HandshakeClient/HandshakeServer (fixed crypto key, deterministic crypto/rand), then packets
+    def plain_after_hs(proto, enc, pkts):
+        sc = Script(2, proto, True)
+        sc.enc = enc
+        for (t, b) in pkts:
+            sc.write(t, b, "w")
+        return sc.plain
+
+    def rnd_pkts(proto, k):
+        res = []
+        for _ in range(k):
+            l = body_len(rng, proto, 400)
+            t = rng.below(2**32)
+            if t in (PING, PONG):
+                t ^= 8
+            res.append((t, rng.bytes(l)))
+        return res
+
+    def pk_text(ps):
+        return ",".join("%08x:%s" % (t, hx(b)) for t, b in ps) or "-"
+
+    lines5 = []
+    hmeta = {}
+    for i in range(240 if c.thorough else 48):
+        enc = i % 2
+        req = rng.choice([0, 1, 1, 2, 2, 3])
+        proto = min(req, 2)
+        cp, sp = rnd_pkts(proto, rng.below(4)), rnd_pkts(proto, rng.below(3))
+        seed = rng.below(256)
+        ln = "packet.hs %d %d %d %s %s %d -" % (seed, enc, req, pk_text(cp), pk_text(sp), rng.choice([1, 3, 7, 16, 100, 4096]))
+        hmeta[ln] = (enc, proto, cp, sp, None)
+        lines5.append(ln)
+        if i % 4 < 2 and cp:
+            pl = plain_after_hs(proto, bool(enc), cp[:2])
+            offs = range(len(pl)) if len(pl) <= 160 else sorted(set(rng.below(len(pl)) for _ in range(120)))
+            for o in offs:
+                ln = "packet.hs %d %d %d %s - %d x%d:%02x" % (seed, enc, req, pk_text(cp[:2]), rng.choice([1, 16, 4096]), o,
+                                                           rng.choice([1, 2, 4, 8, 16, 32, 64, 128, rng.range(1, 255)]))
+                hmeta[ln] = (enc, proto, cp[:2], [], o)
+                lines5.append(ln)
+    res5 = c.tie("hs", lines5, impl, model, canon=lambda a: a.split(" #")[0], jobs=min(16, max(1, len(lines5) // 50)))
+    lines6 = []
+    want6 = {}
+
+    def kv(txt):
+        return dict(x.split("=", 1) for x in txt.split(" ") if "=" in x)
+
+    def evs_of(txt):
+        e_ = txt.split(",")
+        return [(int(x.split(":")[1], 16), unhex(x.split(":")[2])) for x in e_[:-1]], e_[-1][2:]
+
+    for l, a, _ in res5:
+        enc, proto, cp, sp, off = hmeta[l]
+        if not a.startswith("ok "):
+            c.oracle_fail(l, "real handshake did not complete: " + a[:60], l)
+            continue
+        d = kv(a)
+        if int(d["enc"]) != enc or int(d["proto"]) != proto or d["crcc"] != "1":
+            c.oracle_fail(l, "handshake negotiated enc=%s proto=%s crc32c=%s" % (d["enc"], d["proto"], d["crcc"]), l)
+        sr, sfin = evs_of(d["sr"])
+        cr, cfin = evs_of(d["cr"])
+        c.count("hs-final:" + sfin)
+        if off is None:
+            if sr != cp or sfin != "eof" or cr != sp or cfin != "eof":
+                c.oracle_fail(l, "packets after the real handshake are not read back identically", l)
+            if unhex(d["c2s"]) != plain_after_hs(proto, bool(enc), cp) or unhex(d["s2c"]) != plain_after_hs(proto, bool(enc), sp):
+                c.oracle_fail(l, "stream after the handshake is not crc32c frames (+alignment/padding when encrypted)", l)
+            # the handshake bytes themselves must be what the framing model (and the framing code driven directly)
+            # produces for the nonce/handshake bodies and keys observed in this run
+            for side in ("c", "s"):
+                hp, hw = unhex(d[side + "hp"]), unhex(d[side + "hs"])
+                l1 = int.from_bytes(hp[0:4], "little")
+                l2 = int.from_bytes(hp[l1:l1 + 4], "little")
+                b1, b2 = hp[12:l1 - 4], hp[l1 + 12:l1 + l2 - 4]
+                ops = ["w:%08x:%s" % (NONCE, hx(b1)), "v%d" % proto]
+                if enc:
+                    ops.append("e:%s:%s" % (d[side + "key"], d[side + "iv"]))
+                ops.append("w:%08x:%s" % (HS, hx(b2)))
+                ln = "packet.conn 0:0:0 %s %d - 4096 4096" % (",".join(ops), rng.choice([1, 16, 64]))
+                if ln not in want6:
+                    want6[ln] = (hw, l)
+                    lines6.append(ln)
+        else:
+            if sr != cp[:len(sr)]:
+                c.oracle_fail(l, "an altered packet was delivered after corruption at offset %d behind the real handshake" % off, l)
+            if sfin == "eof":
+                c.oracle_fail(l, "flipped byte at offset %d behind the real handshake was not reported as an error" % off, l)
+    res6 = c.tie("hs-frames", lines6, impl, model)
+    for l, a, _ in res6:
+        p = parse_conn_out(a)
+        if p is None or p[0] != want6[l][0] or p[3] != "eof":
+            c.oracle_fail(want6[l][1], "bytes of the real handshake differ from the framing of its nonce/handshake packets", want6[l][1])
     c.extra["rule"] = ("lines: %d random connection histories (handshake-shaped from seq -2 or injected state incl. seq wrap-around, "
                        "protocol 0/1/2, both CRC tables, AES-CBC on/off, WritePacket/NoFlush/WritePacket2/Flush mixes, ping/pong) x chunkings x "
                        "buffer sizes; %d short histories x every wire offset x single-byte xor and truncation; distinct = distinct line text; "
                        "reader-only malformed streams (bad crc/seq/length/type, excess padding, memcached commands, truncation, random), "
-                       "plaintext-level malformations under AES-CBC, body-length validation; every line is a different input" % (nscripts, ncor))
+                       "plaintext-level malformations under AES-CBC, body-length validation; real handshakes (enc on/off, protocol 0..3 requested) "
+                       "followed by packets both ways, with every offset of the first packets corrupted; every line is a different input" % (nscripts, ncor))
 
 
 def c_root():
